@@ -4,6 +4,8 @@ import QlibcModel.Props.C17
 #print axioms Qlibc.Props.C17.hexDecode_safe
 #print axioms Qlibc.Props.C17.parseQueries_safe
 #print axioms Qlibc.Props.C17.makeword_safe
+#print axioms Qlibc.Props.C17.makeword_raw_safe
+#print axioms Qlibc.Props.C17.makeword_nul_stop
 #print axioms Qlibc.Props.C17.table_lengths
 #print axioms Qlibc.Props.C17Parsers.ini_markers
 #print axioms Qlibc.Props.C17Parsers.aconf_tokenize_safe
